@@ -18,6 +18,9 @@ class _Leaf(Shape):
     def leaf(self, mk, name, idx):
         if idx is None:
             return mk.const(name, self.sort)
+        if isinstance(idx, tuple):      # element of a sequence nested in a sequence element
+            f = z3.Function(mk.fname(name), *([IntS] * len(idx) + [self.sort]))
+            return f(*idx)
         ua = getattr(mk, 'uf_args', None)
         if ua is not None:      # element of a sequence inside a parse result: function of (array, position, index)
             f = z3.Function(name, ArrS, IntS, IntS, self.sort)
@@ -302,3 +305,46 @@ class Choice(Shape):
         v = IntT().make(mk, name, idx)
         mk.assume(z3.Or(*[v == x for x in self.values]))
         return v
+
+
+class TupleT(Shape):
+    def __init__(self, *items):
+        self.items = items
+
+    def make(self, mk, name, idx=None):
+        return tuple(s.make(mk, '%s.%d' % (name, i), idx) for i, s in enumerate(self.items))
+
+
+class StructOf(Shape):
+    """a reference to the named struct of the file's ELFStructs (self.structs.X)"""
+
+    def __init__(self, name):
+        self.name = name
+
+    def make(self, mk, name, idx=None):
+        return StructRef(self.name, None)
+
+
+class GenOf(Shape):
+    """a suspended generator whose elements have the given shape"""
+
+    def __init__(self, inner):
+        self.inner = inner
+
+    def make(self, mk, name, idx=None):
+        from .vals import SGen, to_int
+        if isinstance(idx, tuple):
+            n = z3.Function(name + '.len', *([IntS] * (len(idx) + 1)))(*idx)
+        elif idx is not None:
+            n = z3.Function(name + '.len', IntS, IntS)(idx)
+        else:
+            n = mk.const(name + '.len', IntS)
+        mk.assume(n >= 0)
+        inner = self.inner
+        base = name + '[]' if idx is not None else mk.fname(name + '[]')
+        outer = () if idx is None else (idx if isinstance(idx, tuple) else (idx,))
+
+        def elem(i, _base=base):
+            ii = to_int(i) if not outer else outer + (to_int(i),)
+            return inner.make(_StableNames(mk.current()), _base, ii)
+        return SGen(SList(elem, n, name))
